@@ -873,21 +873,29 @@ def rule_text_plain(it, redundant):
 
 
 def expected_parse(d):
+    """what the parse op of the component server prints for a definition: the AST, and for every rule its kind and the index of its
+    right-hand side in the semantic action table (assigned in source order)"""
     out = ['OK']
+    idx = [0]
+
+    def rule_s(x):
+        s = ' '.join(['rule', 're'] + re_tokens(x[2], []) + ((['ctx'] + re_tokens(x[3], [])) if x[3] is not None else []) + ['kind', x[1], 'rhs', str(idx[0])])
+        idx[0] += 1
+        return s
     for it in d['items']:
         if it[0] == 'errortype':
             out.append('errortype')
         elif it[0] == 'let':
             out.append(' '.join(['let', it[1]] + re_tokens(it[2], [])))
         elif it[0] == 'rule':
-            out.append(' '.join(['rule', 're'] + re_tokens(it[2], []) + ((['ctx'] + re_tokens(it[3], [])) if it[3] is not None else [])))
+            out.append(rule_s(it))
         else:
             out.append('ruleset %s {' % it[1])
             for x in it[2]:
                 if x[0] == 'let':
                     out.append(' '.join(['let', x[1]] + re_tokens(x[2], [])))
                 else:
-                    out.append(' '.join(['rule', 're'] + re_tokens(x[2], []) + ((['ctx'] + re_tokens(x[3], [])) if x[3] is not None else [])))
+                    out.append(rule_s(x))
             out.append('}')
     return ' | '.join(out)
 
@@ -1038,7 +1046,9 @@ def check_C16(tier, seed, res, builtins, log):
         got = got[len('parse '):] if got.startswith('parse ') else got
         # normalise the real parser's verdict: 'OK | rule re <tokens>' -> 'ok <tokens>'; ERR/PANIC -> 'err'
         if got.startswith('OK'):
-            real = 'ok ' + ' '.join(got.split('|', 1)[1].split()[2:]) if '|' in got else 'err'
+            body = got.split('|', 1)[1] if '|' in got else ''
+            body = body.split(' kind ')[0]          # the rule kind / action index suffix is compared on whole definitions only
+            real = 'ok ' + ' '.join(body.split()[2:]) if '|' in got else 'err'
         else:
             real = 'err'
         m = model[j][len('PARSE '):].strip() if j < len(model) and model[j].startswith('PARSE ') else None
